@@ -249,6 +249,7 @@ class SymSocket(socket.socket):
         self.closed_seen = False
         self.fault_calls = []
         self.lastcall = {}
+        self.log = []      # replayable script: ['t'] timeout, ['o'] OSError, ['c'] closed, ['d', k] k bytes
 
     def recv(self, n, flags=0):
         eng = sym.ENG
@@ -261,12 +262,15 @@ class SymSocket(socket.socket):
                 self.fault_calls.append(self.ncalls)
                 self.lastcall['fault'] = True
                 if eng.decide(z3.Bool(f"{self.tag}_oserr{self.ncalls}")):
+                    self.log.append(['o'])
                     raise OSError("injected")
+                self.log.append(['t'])
                 raise TimeoutError("injected")
         rem = len(self.d) - self.pos
         if rem == 0:
             self.closed_seen = True
             self.lastcall['closed'] = True
+            self.log.append(['c'])
             return b""
         if isinstance(n, SymInt):
             n = eng.concretize(n.t)
@@ -281,6 +285,7 @@ class SymSocket(socket.socket):
         out = self.d[self.pos:self.pos + kv]
         self.pos += kv
         self.cuts.append(self.pos)
+        self.log.append(['d', kv])
         return out
 
 
